@@ -1,3 +1,4 @@
 //! Independent reference models, written from PROTOCOL.md / CONFIGURATION.md / RFCs.
 pub mod iana;
+pub mod icmp;
 pub mod udpmux;
